@@ -60,6 +60,17 @@ func (x *Exec) lookupGoVar(scope *UnitInfo, name string) *types.Var {
 	if u == nil {
 		u = x.unit
 	}
+	// header names of enclosing units bind their parameters positionally (robust against renaming in the code)
+	for cur := u.Parent; cur != nil; cur = cur.Parent {
+		if cur.Spec == nil || cur.Sig == nil {
+			continue
+		}
+		for i, hn := range cur.Spec.Params {
+			if hn == name && i < cur.Sig.Params().Len() {
+				return cur.Sig.Params().At(i)
+			}
+		}
+	}
 	// free variables of the unit chain and parameters of enclosing units
 	for cur := u; cur != nil; cur = cur.Parent {
 		if cur.Sig != nil {
@@ -703,6 +714,14 @@ func (x *Exec) fieldSortByKey(key string) string {
 		return ""
 	}
 	o := x.unit.Pkg.Types.Scope().Lookup(parts[1])
+	if parts[0] != x.unit.Pkg.Name {
+		o = nil
+		for _, imp := range x.unit.Pkg.Imports {
+			if imp.Name == parts[0] && imp.Types != nil {
+				o = imp.Types.Scope().Lookup(parts[1])
+			}
+		}
+	}
 	if o == nil {
 		return ""
 	}
